@@ -164,8 +164,8 @@ def classes(h):
     mut_check(h, 'Quaternion(dcm=R)', lambda a: np.array(Quaternion(dcm=a)), [np.array(R, copy=True)], repeat=False)
 
 
-@harness('C19/metrics', allowed_exc=(ValueError,), functions=['ahrs.utils.metrics:' + n for n in ('chordal', 'identity_deviation', 'qdist', 'qeip', 'euclidean',
-                                                                          'rmse')], max_paths=32)
+@harness('C19/metrics', allowed_exc=(ValueError,), functions=['ahrs.utils.metrics:' + n for n in ('chordal', 'identity_deviation', 'qdist', 'qeip', 'qcip',
+                                                                          'qad', 'euclidean', 'rmse')], max_paths=32)
 def metric_fns(h):
     """metric functions (non-normalised quaternions)"""
     h.definedness = 'assume'
@@ -173,7 +173,7 @@ def metric_fns(h):
     p = _vecnz(h, 'p', 4)
     h.assume(h.ge(q[0] - p[0], 0.01) | h.le(q[0] - p[0], -0.01))
     h.assume(h.ge(q[0] + p[0], 0.01) | h.le(q[0] + p[0], -0.01))
-    for fn in (metrics.qdist, metrics.qeip):
+    for fn in (metrics.qdist, metrics.qeip, metrics.qcip, metrics.qad):
         mut_check(h, fn.__name__, fn, [q, p], repeat=False)
         mut_check(h, fn.__name__ + ' batch', fn, [h.arr([list(q), list(p)]), h.arr([list(p), list(q)])], repeat=False)
     u, w = h.unit_quat('u'), h.unit_quat('w')
@@ -232,3 +232,22 @@ def recursive(h):
     mut_check(h, 'AngularRate.update', lambda *x: flt.AngularRate().update(*x), [h.arr(list(q)), g], repeat=False)
     b0 = h.vec('b', 3)
     mut_check(h, 'Mahony(b0=b).updateIMU', lambda bb, qq, gg, aa: flt.Mahony(b0=bb).updateIMU(qq, gg, aa), [b0, h.arr(list(q)), g, a], repeat=False)
+
+
+@harness('C19/filters.repeatable', allowed_exc=(ValueError,), functions=[FF + 'aqua:AQUA.updateIMU', FF + 'aqua:AQUA.updateMARG',
+                                                                           FF + 'aqua:AQUA.estimate', FF + 'aqua:adaptive_gain',
+                                                                           FF + 'madgwick:Madgwick.updateIMU'], max_paths=24)
+def repeatable(h):
+    """filters without a legitimate carried state: the same instance called twice with the same (state, sample) arguments
+    returns the same result (no hidden state between calls) and leaves the arguments alone"""
+    h.definedness = 'assume'
+    q = h.unit_quat('q')
+    g = _vecnz(h, 'g', 3)
+    a = _vecnz(h, 'a', 3)
+    m = _vecnz(h, 'm', 3)
+    for adaptive in (False, True):
+        f = flt.AQUA(adaptive=adaptive)
+        mut_check(h, f'AQUA(adaptive={adaptive}).updateIMU', lambda *x: f.updateIMU(*x), [q, g, a])
+        mut_check(h, f'AQUA(adaptive={adaptive}).estimate', lambda *x: f.estimate(*x), [a, m])
+    f2 = flt.Madgwick()
+    mut_check(h, 'Madgwick.updateIMU (same instance)', lambda *x: f2.updateIMU(*x), [q, g, a])
